@@ -87,7 +87,7 @@ def run_py(script, arg_json, timeout=600):
         json.dump(arg_json, f, default=str)
     env = dict(os.environ)
     env["UXARRAY_VERIF"] = "1"
-    env.setdefault("NUMBA_DISABLE_JIT", "1")
+    env.setdefault("NUMBA_DISABLE_JIT", "0")
     env["PYTHONPATH"] = VERIF + os.pathsep + os.path.join(VERIF, "harness")
     alt = os.environ.get("VERIF_REPO")
     if alt and os.path.abspath(alt) != "/repo":
